@@ -54,11 +54,14 @@ SCRIPTS = {
     'greet_c': (2, [('greet', 'c'), ('adv', 1), ('connect', 'x', 0, 1), ('send', 'x', 'c', 1), ('send', 'x', 'p', 2), ('disc', 'x', 'c')]),
     'greet_p': (2, [('greet', 'p'), ('adv', 1), ('connect', 'x', 0, 1), ('send', 'x', 'p', 1), ('send', 'x', 'c', 2), ('disc', 'x', 'p')]),
     'greet_both': (2, [('greet', 'c'), ('greet', 'p'), ('adv', 1), ('connect', 'x', 0, 1), ('send', 'x', 'c', 1), ('send', 'x', 'p', 2), ('disc', 'x', 'c')]),
+    # BR/EDR: two devices page the same third device in the same turn of the event loop
+    'page_race': (3, [('connect_bg', 'x', 0, 2), ('connect_bg', 'y', 1, 2), ('join', 'x'), ('join', 'y'), ('send', 'x', 'c', 1), ('send', 'y', 'c', 2), ('send', 'x', 'p', 3), ('send', 'y', 'p', 4), ('disc', 'x', 'c'), ('send', 'y', 'c', 5), ('disc', 'y', 'p')]),
     'dual_mode': (2, [('adv', 1), ('connect', 'x', 0, 1), ('connect_cl', 'y', 0, 1), ('send', 'x', 'c', 1), ('send', 'y', 'c', 2), ('send', 'y', 'p', 3), ('send', 'x', 'p', 4), ('disc', 'x', 'c'), ('send', 'y', 'c', 5), ('send', 'y', 'p', 6), ('disc', 'y', 'p')]),
     'dual_mode_rev': (2, [('connect_cl', 'y', 0, 1), ('adv', 1), ('connect', 'x', 0, 1), ('send', 'y', 'p', 1), ('send', 'x', 'p', 2), ('send', 'x', 'c', 3), ('send', 'y', 'c', 4), ('disc', 'y', 'c'), ('send', 'x', 'c', 5), ('send', 'x', 'p', 6), ('disc', 'x', 'p')]),
 }
 DUAL_SCRIPTS = ('dual_mode', 'dual_mode_rev')
-CLASSIC_SCRIPTS = ['pair', 'pair_pdisc', 'reconnect', 'fan_out', 'fan_in', 'chain', 'handle_reuse', 'burst_cdisc', 'burst_pdisc', 'burst_two_links', 'greet_c', 'greet_p', 'greet_both']
+CLASSIC_ONLY = ('page_race',)
+CLASSIC_SCRIPTS = ['pair', 'pair_pdisc', 'reconnect', 'fan_out', 'fan_in', 'chain', 'handle_reuse', 'burst_cdisc', 'burst_pdisc', 'burst_two_links', 'greet_c', 'greet_p', 'greet_both', 'page_race']
 
 
 def payload(tag, name):
@@ -399,6 +402,8 @@ def run_scan(cfg):
 def configs(quick):
     out = []
     for script in SCRIPTS:
+        if script in CLASSIC_ONLY:
+            continue
         n = SCRIPTS[script][0]
         orders = list(itertools.permutations(range(n)))
         for init_own in ('random', 'public'):
@@ -481,12 +486,12 @@ def run(ctx: core.Context) -> int:
     if not only or 'sched' in only:
         st = ctx.sub('schedules')
         reps = []
-        for script in ('pair', 'fan_out', 'fan_in', 'chain_race', 'incoming_while_pending', 'burst_cdisc', 'burst_pdisc', 'greet_both') if quick else list(SCRIPTS):
+        for script in ('pair', 'fan_out', 'fan_in', 'chain_race', 'incoming_while_pending', 'burst_cdisc', 'burst_pdisc', 'greet_both') if quick else [x for x in SCRIPTS if x not in CLASSIC_ONLY]:
             n = SCRIPTS[script][0]
             reps.append(({'transport': 'le', 'init_own': 'random', 'adv_own': ['random'] * n, 'ext': [False] * n, 'order': list(range(n))}, script))
             if not quick:
                 reps.append(({'transport': 'le', 'init_own': 'random', 'adv_own': ['random'] * n, 'ext': [True] * n, 'order': list(reversed(range(n)))}, script))
-        for script in ('pair', 'fan_in', 'greet_p') if quick else CLASSIC_SCRIPTS:
+        for script in ('pair', 'fan_in', 'greet_p', 'page_race') if quick else CLASSIC_SCRIPTS:
             n = SCRIPTS[script][0]
             reps.append(({'transport': 'classic', 'init_own': 'public', 'adv_own': ['public'] * n, 'ext': [False] * n, 'order': list(range(n))}, script))
         for cfg, script in reps:
@@ -496,7 +501,7 @@ def run(ctx: core.Context) -> int:
         ctx,
         LEVEL,
         rule=(
-            'scripts_d0: 15 scripts (incl. applications that send from their connection-event listener, two dual-mode LE+BR/EDR scripts and extended advertising sets with an address of their own) (connect/data/disconnect orders over 2-3 devices incl. a device that is central and peripheral at once '
+            'scripts_d0: 16 scripts (incl. two devices paging a third at the same moment, applications that send from their connection-event listener, two dual-mode LE+BR/EDR scripts and extended advertising sets with an address of their own) (connect/data/disconnect orders over 2-3 devices incl. a device that is central and peripheral at once '
             'with racing connects) x own-address type of initiator and advertisers x legacy/extended advertising x LE/BR-EDR x controller '
             'iteration orders, default schedule; scanning: passive/active scanner x advertisers x payload lengths; schedules: representative '
             'configurations under all order-preserving delays up to the deviation bound. distinct = distinct (configuration, script) or '
